@@ -33,6 +33,7 @@ def run_shard(ctx):
     qmgen.drive_histories(ctx, OWN, qmgen.announce_window_history(), ctx.n(800, 12000), nontrivial, salt=11)
     qmgen.drive_histories(ctx, OWN, qmgen.double_report_history(), ctx.n(800, 12000), nontrivial, salt=13)
     qmgen.drive_histories(ctx, OWN, qmgen.enqueue_vs_load_history(), ctx.n(800, 12000), nontrivial, salt=14)
+    qmgen.drive_histories(ctx, OWN, qmgen.late_wake_history(), ctx.n(400, 6000), nontrivial, salt=15)
 
 
 def replay(case):
